@@ -78,6 +78,9 @@ def run_shard(args):
         strat = sub.strategy(shapes)
         opened = findings.open_for(prop_id)
         n_examples = int(sub.examples[tier])
+        if tier == "thorough":
+            # the thorough tier is bounded by case counts, not time: 3x the per-shard counts listed in the sub-checks
+            n_examples *= int(os.environ.get("VERIF_THOROUGH_SCALE", "3"))
         if os.environ.get("VERIF_EXAMPLES_SCALE"):
             n_examples = max(1, int(n_examples * float(os.environ["VERIF_EXAMPLES_SCALE"])))
         nontriv = set()
